@@ -385,8 +385,11 @@ def report(chk, traces, tv):
         what = ev.get("sel", "") + ("/" if ev.get("slash") else "") if ev.get("ev") != "search" else ev.get("s", "")
         key = "%s|%s|%s|%s" % (clause, tr["id"], what, row)
         init = tr["init"]
+        site = {x: tr["site"][x] for x in tr["site"]}
+        if ev.get("ev") == "search":                # the replay is exactly this (search item, string) pair
+            site["searches"] = [pr for pr in site["searches"] if pr[1] == ev["s"] and init.get("s", "").startswith(pr[0] + " <- ")]
         chk.violation(key, clause, {"p": init["p"], "hl": init["hl"], "cfg": init["cfg"], "what": init["what"],
-                                    "site": {x: tr["site"][x] for x in tr["site"]}, "row": row, "at": what},
+                                    "site": site, "row": row, "at": what},
                       {"event": ev, "concrete": tr["concrete"][max(0, rj["at"] - 4):rj["at"]]})
     chk.note_drift(tv["drift"])
 
